@@ -1,0 +1,7 @@
+//go:build !verif
+
+package m3
+
+// verifYield marks a scheduling point for the verification harness. Without
+// the `verif` build tag it is empty and inlined away.
+func verifYield(point int) {}
